@@ -23,6 +23,8 @@ from rsx import LostAnchor  # noqa: E402
 from weave import Unsupported  # noqa: E402
 
 REPO = os.environ.get('VERIF_REPO', '/repo')
+# evidence of runs against a scratch copy (seeded changes) goes elsewhere: /verif/evidence always describes /repo
+EVIDENCE_DIR = os.environ.get('VERIF_EVIDENCE_DIR') or os.path.join(os.path.dirname(os.path.dirname(os.path.abspath(__file__))), 'evidence')
 VERUS = shutil.which('verus') or '/opt/veriftools/verus/verus'
 
 VERDICTS = (
@@ -556,7 +558,7 @@ def _match_known(known, ob):
 
 
 def write_evidence(pid, pc, tier, seed, results, extra, total_obs, violations, known_hits, wall, undecided, failed_names=()):
-    os.makedirs(os.path.join(VERIF, 'evidence'), exist_ok=True)
+    os.makedirs(EVIDENCE_DIR, exist_ok=True)
     known_names = set(fl['ob'] for (_, fl) in known_hits)
     claimed = dict((k, v) for k, v in total_obs.items() if k not in known_names)
     n = len(claimed)
@@ -613,7 +615,7 @@ def write_evidence(pid, pc, tier, seed, results, extra, total_obs, violations, k
         wall_s=round(wall, 2),
         violations=len(violations),
     )
-    with open(os.path.join(VERIF, 'evidence', pid + '.json'), 'w') as f:
+    with open(os.path.join(EVIDENCE_DIR, pid + '.json'), 'w') as f:
         json.dump(ev, f, indent=1)
 
 
